@@ -38,7 +38,8 @@ VARIANTS = [
     {"label": "base", "hashseed": "0", "entropy": {}},
     # this variant also runs the batch in REVERSE order: what ran earlier in the interpreter must not matter either
     {"label": "hash1-entropy-clock", "hashseed": "1", "reverse": True,
-     "entropy": {"uuid_base": 10 ** 9, "bits_mode": "max", "clock_origin": 1_900_000_000, "clock_step_us": 1_000_000, "clock_offset_us": 0}},
+     "entropy": {"uuid_base": 10 ** 9, "uuid_mode": "mix", "bits_mode": "max", "clock_origin": 1_900_000_000,
+                 "clock_step_us": 1_000_000, "clock_offset_us": 0}},
     {"label": "hashN-logging", "hashseed": "4242", "entropy": {"uuid_base": 77, "bits_mode": "min"}, "logging": True},
     {"label": "hash2", "hashseed": "2", "entropy": {"uuid_base": 5, "clock_step_us": 999_983}},
     {"label": "hash3", "hashseed": "31337", "entropy": {"bits_mode": "max"}},
